@@ -573,28 +573,26 @@ def oracle(case, recs):
     returns a list of (key, what)"""
     bad = []
     kind = case["kind"]
+    since = None       # first record of the current run of stale records
     for n, r in enumerate(recs):
         if "raw" not in r:
             continue
         op = r["op"]
-        if r["raw"] != ZERO and r["raw"] != r["fs"]:
-            prev = recs[n - 1]["op"] if n else "-"
-            cause = op if op not in ("S", "SY", "SM") else prev
-            # attribute to the operation that left it stale
-            k = n
-            while k > 0 and recs[k]["op"] in ("S", "SY", "SM"):
-                k -= 1
-            cause = recs[k]["op"]
+        stale = r["raw"] != ZERO and r["raw"] != r["fs"]
+        if stale and since is None:
+            since = n
+        if not stale:
+            since = None
+        if stale:
+            cause = recs[since]["op"]        # the operation that left it stale
             bad.append(("%s:%s:stale-signature" % (kind, cause),
                         "%s: after %s the cached signature %s is not the signature %s of the current content"
                         % (kind, cause, r["raw"], r["fs"]), n))
         if op == "S" and r["ret"] != r["fs"]:
-            k = n
-            while k > 0 and recs[k]["op"] in ("S", "SY", "SM"):
-                k -= 1
-            bad.append(("%s:%s:stale-signature" % (kind, recs[k]["op"]),
+            cause = recs[since]["op"] if since is not None else "S"
+            bad.append(("%s:%s:stale-signature" % (kind, cause),
                         "%s: signature() returns %s after %s, an equal individual built from scratch has %s"
-                        % (kind, r["ret"], recs[k]["op"], r["fs"]), n))
+                        % (kind, r["ret"], cause, r["fs"]), n))
         if kind == "TEAM":
             mfs = [h2(h) for h in r["mfs"].split(",")] if r.get("mfs") else []
             acc = (0, 0)
@@ -692,9 +690,9 @@ def run_harness_resilient(exe, lines, timeout=1800):
 # ----------------------------------------------------------------------- run
 def run(ck):
     vv.build_lib("asan")
-    res = vv.prove("Properties_C03", vv.FLOCQ_AXIOMS)
+    res = vv.prove("Properties_C03", set())
     ck.add_proof(res)
-    res2 = vv.prove("Refuted_C03", vv.FLOCQ_AXIOMS)
+    res2 = vv.prove("Refuted_C03", set())
     ck.add_proof(res2)
     ck.trusted += ["extraction: ExtrOcamlBasic only, no Extract Constant; ocaml/sig_driver.ml + zutil.ml "
                    "(almost_equal of gene operator== is realised there on OCaml floats)",
@@ -706,9 +704,23 @@ def run(ck):
         "H_cse (hypothesis of the MCse step in C03_cache_never_stale_mep): i_mep::cse() keeps the packed stream of the "
         "active tree; checked on every cse() of this run by the from-scratch oracle",
         "opcodes < 2^16 and pairwise distinct (symbol::opc_count_), arity and parametric flag determined by the symbol",
-        "the four Flocq/stdlib axioms appear only because the shared genome model stores parameters as binary64 values"]
+        "NaN parameters are outside the model (the shared genome model stores parameters as Flocq BinarySingleNaN values, "
+        "one NaN); no shipped terminal::init() yields NaN; generated parameters avoid NaN payloads",
+        "all theorems print 'Closed under the global context' (allow-list is empty)"]
 
-    harness = vv.build_harness("h_sig")
+    # several checks running at once on different trees garbage-collect each other's
+    # snapshot / library directories (.build keeps only the newest few): retry the
+    # build when it failed because those directories vanished under the compiler;
+    # a genuine build error fails again and is re-raised
+    for attempt in range(3):
+        try:
+            harness = vv.build_harness("h_sig")
+            break
+        except vv.BuildError as e:
+            if attempt == 2 or not ("No such file or directory" in str(e) or "undefined reference" in str(e)
+                                    or "cannot find" in str(e)):
+                raise
+            vv.log("build raced with another check's garbage collection, retrying")
     model = vv.ocaml_model("Sig")
     rc, so, se = vv.run_lines(harness, "SYMS\n", env=vv.san_env())
     if rc != 0 or not so or not so[0].startswith("SYMS"):
